@@ -402,7 +402,15 @@ func evalInner(g *Gate, top, inner *ssa.Function) (sTop, sub *Summary) {
 	}
 	sTop = g.Eval(top)
 	for _, s := range g.Subs {
-		if s.Fn == inner && s.Parent == sTop {
+		if s.Fn != inner {
+			continue
+		}
+		// called by top directly, or through helpers outside the vocabulary
+		p := s.Parent
+		for p != nil && p != sTop && g.P.IsNewHelper(p.Fn) {
+			p = p.Parent
+		}
+		if p == sTop {
 			sub = s
 		}
 	}
